@@ -62,7 +62,19 @@ def scratch():
     return _scratch
 
 
+_CHILDREN = set()      # process groups started by run() in THIS process and still running
+
+
+def _kill_children():
+    for pid in list(_CHILDREN):
+        try:
+            os.killpg(pid, signal.SIGKILL)
+        except (ProcessLookupError, PermissionError):
+            pass
+
+
 def _sig(signo, _frm):
+    _kill_children()    # a pool worker that is terminated must not leave its probe (and what that forked) running
     _cleanup()          # no-op in forked pool workers (only the owner removes the scratch dir)
     os._exit(128 + signo)
 
@@ -309,6 +321,7 @@ def run(cmd, input=None, timeout=20, cwd=None, envx=None, tmp=None):
     p = subprocess.Popen(cmd, stdin=subprocess.PIPE if input is not None else subprocess.DEVNULL,
                          stdout=subprocess.PIPE, stderr=subprocess.PIPE, cwd=cwd,
                          env=env(envx, tmp), start_new_session=True)
+    _CHILDREN.add(p.pid)        # its own session: killed by hand when this process is told to stop (see _sig)
     try:
         o, e = p.communicate(input, timeout=timeout)
         return p.returncode, o, e
@@ -319,6 +332,8 @@ def run(cmd, input=None, timeout=20, cwd=None, envx=None, tmp=None):
             pass
         o, e = p.communicate()
         return "timeout", o, e
+    finally:
+        _CHILDREN.discard(p.pid)
 
 
 def _pool_pids(pool):
